@@ -42,5 +42,5 @@ def run(ctx):
     ctx.assumptions.append("file-system clauses: proved for the fault-free commit of the protocol model (C01_commit_yields_written_object, C01_reachable_tree_valid) under commit_pre + commit_pre_tree, which the correspondence evaluates on every real pre-state; storage root files, layout placement, purge and operations under faults are decided by the direct search on executed histories (and by C04/C05/C11/C12)")
     return histcheck.run_history_check(
         ctx, proof, hook2, n, length, final_commit=True, extra_evidence=fs,
-        known_classifier=c01known.classifier, scripted=c01known.scenarios() + hist.hostile_root_scenarios(),
+        known_classifier=c01known.classifier, scripted=c01known.scenarios() + hist.hostile_root_scenarios() + hist.upgrade_scenarios(),
         rule="adaptive random histories over 3 object ids x rotating configurations (8 layout variants, spec 1.0/1.1, sha256/512, content dir, padding, external staging, fresh handle); distinct = distinct (operation, arguments, result class); NotFound steps are trivial")
